@@ -12,6 +12,7 @@ Nothing here predicts what the library should do; it only records.
 from __future__ import annotations
 
 import asyncio
+import dataclasses
 import math
 
 from . import env
@@ -92,6 +93,68 @@ class ScriptExc(Exception):
         self.retry_after = ra
 
 
+class ScriptRuntimeExc(RuntimeError):
+    """The operation's own error happens to derive from RuntimeError (what executors, event loops and generators raise themselves)."""
+
+    def __init__(self, klass: str, idx: int, ra=None):
+        super().__init__(f"{klass}@{idx}")
+        self.rv_klass = klass
+        self.idx = idx
+        self.retry_after = ra
+
+
+class ScriptOSExc(ConnectionResetError):
+    def __init__(self, klass: str, idx: int, ra=None):
+        super().__init__(104, f"{klass}@{idx}")
+        self.rv_klass = klass
+        self.idx = idx
+        self.retry_after = ra
+
+
+@dataclasses.dataclass(frozen=True)
+class ScriptFrozenExc(Exception):
+    """An immutable error value (the shape of redress' own RetryExhaustedError): refuses every attribute assignment."""
+
+    rv_klass: str
+    idx: int
+    retry_after: object = None
+
+
+class ScriptEmptyExc(Exception):
+    """An aggregate error sized over its collected sub-errors, raised with none: a falsy exception object."""
+
+    def __init__(self, klass: str, idx: int, ra=None):
+        super().__init__(f"{klass}@{idx}")
+        self.rv_klass = klass
+        self.idx = idx
+        self.retry_after = ra
+
+    def __len__(self):
+        return 0
+
+
+EXC_FAMILIES = ("plain", "runtime", "os", "frozen", "empty", "group")
+
+
+def mk_script_exc(family, klass, idx, ra=None):
+    if family == "runtime":
+        return ScriptRuntimeExc(klass, idx, ra)
+    if family == "os":
+        return ScriptOSExc(klass, idx, ra)
+    if family == "frozen":
+        return ScriptFrozenExc(klass, idx, ra)
+    if family == "empty":
+        return ScriptEmptyExc(klass, idx, ra)
+    if family == "group":
+        # what a TaskGroup / nursery with one failing child raises
+        x = ExceptionGroup(f"{klass}@{idx}", [ScriptExc(klass, idx, ra)])
+        x.rv_klass = klass
+        x.idx = idx
+        x.retry_after = ra
+        return x
+    return ScriptExc(klass, idx, ra)
+
+
 class ScriptRes:
     __slots__ = ("rv_klass", "idx", "retry_after")
 
@@ -112,6 +175,18 @@ class ScriptVal:
 
     def __repr__(self):
         return f"Val(@{self.idx})"
+
+
+class JobCancelled(asyncio.CancelledError, Exception):
+    """The compatibility idiom from when CancelledError moved under BaseException: still an instance of the cancellation type."""
+
+
+class OperatorInterrupt(KeyboardInterrupt, Exception):
+    pass
+
+
+class ServiceExit(SystemExit, Exception):
+    pass
 
 
 def make_exc(name: str):
@@ -152,6 +227,12 @@ def make_exc(name: str):
         return KeyboardInterrupt()
     if name == "sysexit":
         return SystemExit(3)
+    if name == "cancel_exc":
+        return JobCancelled("withdrawn")
+    if name == "kbd_exc":
+        return OperatorInterrupt()
+    if name == "sysexit_exc":
+        return ServiceExit(3)
     if name == "genexit":
         return GeneratorExit()
     if name == "base":
@@ -159,7 +240,9 @@ def make_exc(name: str):
     raise KeyError(name)
 
 
-CANCEL_KINDS = ("cancel", "kbd", "sysexit")
+CANCEL_KINDS = ("cancel", "kbd", "sysexit", "cancel_exc", "kbd_exc", "sysexit_exc")
+
+
 class _NoTruthValue:
     def __init__(self, x):
         self.x = x
@@ -469,7 +552,8 @@ class Harness:
             rec.objs[i] = v
             return v
         if kind == "exc":
-            x = ScriptExc(o[1], i, o[2] if len(o) > 2 else None)
+            fams = self.sc.get("exc_family") or ("plain",)
+            x = mk_script_exc(fams[i % len(fams)], o[1], i, o[2] if len(o) > 2 else None)
             rec.objs[i] = x
             raise x
         if kind == "exc_same":
@@ -976,31 +1060,40 @@ class Harness:
                 await h.susp("op2")
             return h.op_body()
 
-        if self.meth == "execute":
-            tl = self.sc.get("timeline")
-            if tl in ("obj", "objshared"):
-                rec.timeline_obj = self._timeline_for(tl)
-                rec.objs["tl_before"] = len(rec.timeline_obj.events)
-                ckw["capture_timeline"] = rec.timeline_obj
-            elif tl:
-                ckw["capture_timeline"] = True
-            c = self.obj.execute(aop, **ckw)
-        elif self.meth == "ctx":
+        try:
+            if self.meth == "execute":
+                tl = self.sc.get("timeline")
+                if tl in ("obj", "objshared"):
+                    rec.timeline_obj = self._timeline_for(tl)
+                    rec.objs["tl_before"] = len(rec.timeline_obj.events)
+                    ckw["capture_timeline"] = rec.timeline_obj
+                elif tl:
+                    ckw["capture_timeline"] = True
+                c = self.obj.execute(aop, **ckw)
+            elif self.meth == "ctx":
 
-            async def viactx():
-                async with h.obj.context(**ckw) as call:
-                    if h.sc.get("ctx_decoy"):
-                        async with h.obj.context(on_log=lambda *a: None):
-                            return await call(aop)
-                    return await call(aop)
+                async def viactx():
+                    async with h.obj.context(**ckw) as call:
+                        if h.sc.get("ctx_decoy"):
+                            async with h.obj.context(on_log=lambda *a: None):
+                                return await call(aop)
+                        return await call(aop)
 
-            c = viactx()
-        elif self.kind == "deco":
-            if self.decorated is None:
-                self.decorated = self._deco_build(ckw, aop)
-            c = self.decorated()
-        else:
-            c = self.obj.call(aop, **ckw)
+                c = viactx()
+            elif self.kind == "deco":
+                if self.decorated is None:
+                    self.decorated = self._deco_build(ckw, aop)
+                c = self.decorated()
+            else:
+                c = self.obj.call(aop, **ckw)
+        except BaseException as x:  # noqa: BLE001
+            # an entry point that does part of its work when invoked rather than when awaited, and fails there: the caller of
+            # `await entry(...)` sees the same exception at the same place
+
+            async def failed(x=x):
+                raise x
+
+            c = failed()
         return rec, c
 
     def call_async(self, k):
@@ -1022,6 +1115,14 @@ def drive(coro, rec=None, fault=None):
     """Manual coroutine driver.  Suspension point k = the k-th time the coroutine yields."""
     sp = 0
     try:
+        if fault is not None and fault["at"] == -1:
+            # the coroutine object is created (batch being assembled, wait_for with no time left, task cancelled in the tick
+            # it was made) and dropped without ever receiving its first send: none of its body, no finally, runs
+            if rec is not None:
+                rec.fault_fired += 1
+                rec.trace.append(("thrown", "never-started", ""))
+            coro.close()
+            return ("closed", None)
         coro.send(None)
         while True:
             if fault is not None and fault["at"] == sp:
